@@ -1110,7 +1110,14 @@ class Ev:
         return VFunc("lambda", (node, self.frame, dict(self.bound)), "<lambda>")
 
     def e_Await(self, node):
-        return self.expr(node.value)
+        v = self.expr(node.value)
+        if isinstance(v, VRef) and self.registry is not None:
+            o = self.st.obj(v)
+            if isinstance(o, Obj):
+                am = self.registry._await_models.get(o.cls)
+                if am is not None:
+                    return am(self, v, node)
+        return v
 
     def e_Call(self, node):
         from . import builtins as B
